@@ -468,12 +468,12 @@ def many_endpoint_cases(rng, tag, thorough=False):
 def pigeonhole_cases(rng, tag, thorough=False, sizes=None):
     """more endpoints pending at once than any small per-endpoint side structure (filter, cache, folded key) has slots, in three
     families: a DENSE block (consecutive device ids x all 256 stream ids - contains the pairs that collide under shift/xor/add style
-    key foldings), random endpoints, one stream x consecutive device ids. All first segments; a random half is then completed or
+    key foldings), random endpoints, one stream x consecutive device ids (thorough: up to 6000). All first segments; a random half is then completed or
     aborted (which releases whatever it shares with a survivor); every survivor then either gets an abort event followed by the stray
     remaining segments (nothing may be delivered) or its remaining segments (the message must be delivered intact)."""
     cases = []
     plan = sizes or ([('dense', 1024), ('random', 1000), ('devs', 800)] if not thorough else
-                     [('dense', 3072), ('dense', 16384), ('random', 2500), ('random', 70000), ('devs', 2300), ('devs', 66000)])
+                     [('dense', 1024), ('dense', 4096), ('random', 1000), ('random', 6000), ('devs', 800), ('devs', 4000)])
     for i, (fam, n) in enumerate(plan):
         r = rng.fork('%sph%d' % (tag, i))
         if fam == 'dense':
@@ -591,7 +591,7 @@ def wrap_count_cases(rng, tag, thorough=False):
     reassembly and opens the next one (kind 'abort'); `[first]` then `[last]` completes one (kind 'done', two frames per event)."""
     cases = []
     plan = [(65535, 'abort'), (65536, 'abort'), (65534, 'abort'), (32767, 'done')] if not thorough else \
-           [(n, k) for k in ('abort', 'done') for n in (32766, 32767, 32768, 65533, 65534, 65535, 65536, 65537, 131071)]
+           [(n, k) for k in ('abort', 'done') for n in (32767, 32768, 65534, 65535, 65536)] + [(131071, 'abort')]
     for i, (n, kind) in enumerate(plan):
         r = rng.fork('%swrap%d' % (tag, i))
         e = (r.below(65536), r.below(256))
